@@ -114,3 +114,23 @@ def signed_fused_programs():
                 out.append("functie f(n) { n %s %d } f(%s)" % (op, c, lit(a)))
                 out.append("functie f(n) { %d %s n } f(%s)" % (c, op, lit(a)))
     return out
+
+
+def same_object_programs():
+    """a value compared WITH ITSELF — the same variable twice, through an alias, the same list element twice, a parameter twice —
+    for every kind of value, in particular NaN (not equal to itself), the infinities, both zeros, texts, lists and functions:
+    an "identical object => equal" shortcut in the comparison gives NaN == NaN here and nowhere else"""
+    vals = ["0.0 / 0.0", "float(\"nan\")", "1.0 / 0.0", "0.0 - 1.0 / 0.0", "0.0 * (0.0 - 1.0)", "0.0", "1.5", "7", "(0 - 7)", "ja",
+            "als nee { 1 }", "\"tekst\"", "\"\"", "functie(q) { q }", "[1.5]"]
+    ops = ["==", "!=", "<", "<=", ">", ">="]
+    out = []
+    for v in vals:
+        for op in ops:
+            out.append("stel n = %s; n %s n" % (v, op))
+            out.append("stel n = %s; stel m = n; [n %s m, m %s n]" % (v, op, op))
+            out.append("stel a = [%s, 0]; a[0] %s a[0]" % (v, op))
+            out.append("functie(x) { x %s x }(%s)" % (op, v))
+            out.append("functie(x, y) { [x %s y, y %s x] }(%s, %s)" % (op, op, v, v))
+        out.append("stel n = %s; als n == n { 1 } anders { 2 }" % v)
+        out.append("stel n = %s; stel k = 0; zolang n != n && k < 3 { k += 1 }; k" % v)
+    return out
